@@ -250,6 +250,7 @@ impl Monitor for C12 {
         let mut rng = Rng::for_trial(cfg.seed, "C12", idx);
         let ci = (idx % N_CASES as u64) as usize;
         let n = nl[((idx / N_CASES as u64) % nl.len() as u64) as usize];
+        let n = super::jitter_n(cfg, n, 1, 40, &mut rng);
         let mode = match (idx / (N_CASES * nl.len()) as u64) % 3 {
             0 => Mode::Exact,
             1 => Mode::Pow2,
